@@ -404,7 +404,9 @@ class XRayTransform3D(LinearOperator):
         # calculate weight on 4 intersecting pixels
         w = 0.5  # assumed <= 1.0
         left_edge = Px - w / 2
-        to_next = jnp.minimum(jnp.ceil(left_edge) - left_edge, w)
+        # distance to the next bin edge, in (0, 1]: jnp.ceil(left_edge) - left_edge is 0 when the
+        # left edge lies exactly on a bin edge, which would move the whole footprint one bin to the right
+        to_next = jnp.minimum(jnp.floor(left_edge) + 1 - left_edge, w)
         ul_ind = jnp.floor(left_edge).astype("int32")
         ul_ind = jnp.where(ul_ind < 0, max(output_shape), ul_ind)  # otherwise negative values wrap
 
